@@ -108,6 +108,12 @@ def real_setup(rnd, mass_kind, bounded, d):
         lo = means - numpy.array([rnd.choice([1.0, 1.5, 2.0]) for _ in range(d)]).reshape(-1, 1)
         hi = means + numpy.array([rnd.choice([1.0, 1.5, 2.0]) for _ in range(d)]).reshape(-1, 1)
     target = hmclab.Distributions.Normal(means.copy(), var.copy(), lower_bounds=lo, upper_bounds=hi)
+    if bounded and d >= 2 and rnd.random() < 0.35:
+        # the same box carried by the components of a composite target (no bounds on the composite itself)
+        D = hmclab.Distributions
+        target = D.CompositeDistribution([D.Normal(means[i:i + 1].copy(), var[i:i + 1].copy(), lower_bounds=lo[i:i + 1].copy(), upper_bounds=hi[i:i + 1].copy())
+                                          for i in range(d)])
+        target._c01_box = (lo, hi)
     if mass_kind == "unit":
         mass = hmclab.MassMatrices.Unit(d)
     elif mass_kind == "diagonal":
@@ -121,7 +127,7 @@ def real_setup(rnd, mass_kind, bounded, d):
 def reflections_single(target, mass, integ, cfg, q, p, lits):
     """Replays the trajectory in numpy to see whether every reflected drift is a single bounce landing in the box
     (the hypothesis `all_good` of the Coq theorem) and whether any reflection happened."""
-    lo, hi = target.lower_bounds, target.upper_bounds
+    lo, hi = getattr(target, "_c01_box", (target.lower_bounds, target.upper_bounds))
     if lo is None and hi is None:
         return True, False
     events = {"n": 0, "bad": False}
